@@ -514,3 +514,23 @@ Theorem C04_claims_from_carried_request_misname :
 Proof. exact TokenClaims_proofs.carried_request_misnames. Qed.
 Print Assumptions C04_claims_from_carried_request_misname.
 (* --- end round 11 --- *)
+
+(* --- round 12: the look-up of a presented token among a grant's issued tokens is the source's --- *)
+From Verif Require Gen.Src_grant Proofs.Src_refine_grant.
+Theorem C04_get_token_is_source : forall toks rest v clock,
+  Src_grant.Grant_get_token_src (Src_refine_grant.inject_grant toks rest) (VStr v) clock
+  = Ok (Src_refine_grant.opt_tok (List.find (fun t => str_eqb (Src_refine_grant.k_value t) v) toks)).
+Proof. exact Src_refine_grant.get_token_refines. Qed.
+Print Assumptions C04_get_token_is_source.
+(* what get_token hands on carries exactly the presented value: a token is never resolved through another token's value *)
+Theorem C04_get_token_sound : forall toks rest v clock t,
+  Src_grant.Grant_get_token_src (Src_refine_grant.inject_grant toks rest) (VStr v) clock = Ok (Src_refine_grant.inject_tok t) ->
+  Src_refine_grant.k_value t = v.
+Proof. exact Src_refine_grant.get_token_sound. Qed.
+Print Assumptions C04_get_token_sound.
+Theorem C04_find_token_is_source : forall toks v clock,
+  Src_grant.find_token_src (VList (List.map Src_refine_grant.inject_tok toks)) (VStr v) clock
+  = Ok (Src_refine_grant.opt_tok (List.find (fun t => str_eqb (Src_refine_grant.k_id t) v) toks)).
+Proof. exact Src_refine_grant.find_token_refines. Qed.
+Print Assumptions C04_find_token_is_source.
+(* --- end round 12 --- *)
